@@ -660,7 +660,8 @@ func decodeKeyNotFoundStream(s *Stream, start int64) (*structFieldSet, string, e
 				if !s.read() {
 					return nil, "", errors.ErrUnexpectedEndOfJSON("string", s.totalOffset())
 				}
-				buf, cursor, p = s.statForRetry()
+				// stay on the escaped byte that has just arrived: the loop steps over it
+				buf, cursor, p = s.stat()
 			}
 		case nul:
 			s.cursor = cursor
